@@ -263,6 +263,12 @@ impl<'tcx> Cx<'tcx> {
                             }
                         }
                         rustc_middle::mir::interpret::Scalar::Ptr(p, _) => {
+                            {
+                                let (prov, _off) = p.into_raw_parts();
+                                if let Some(rustc_middle::mir::interpret::GlobalAlloc::Static(sd)) = tcx.try_get_global_alloc(prov.alloc_id()) {
+                                    name = format!("static:{}", self.path(sd));
+                                }
+                            }
                             // &[u8; N] byte string literal, &&str ...
                             if let ty::Ref(_, inner, _) = ty.kind() {
                                 if let ty::Array(et, n) = inner.kind() {
@@ -700,6 +706,40 @@ impl rustc_driver::Callbacks for Cb {
         for ldid in items.definitions() {
             let did = ldid.to_def_id();
             let kind = tcx.def_kind(did);
+            if matches!(kind, DefKind::Static { .. }) {
+                // `static X: &str = "..."`: the allocation holds a (pointer, length) pair
+                let ty = tcx.type_of(did).instantiate_identity().skip_norm_wip();
+                let mut val = String::from("null");
+                if let Ok(alloc) = tcx.eval_static_initializer(did) {
+                    let a = alloc.inner();
+                    if a.len() == 16 {
+                        if let Some((_, prov)) = a.provenance().ptrs().iter().next() {
+                            let raw = a.inspect_with_uninit_and_ptr_outside_interpreter(8..16);
+                            let mut lb = [0u8; 8];
+                            lb.copy_from_slice(raw);
+                            let len = u64::from_le_bytes(lb) as usize;
+                            if let Some(b) = cx.alloc_bytes(prov.alloc_id(), 0, len) {
+                                if let Ok(st) = std::str::from_utf8(&b) {
+                                    val = js(st);
+                                }
+                            }
+                        }
+                    }
+                }
+                if !first {
+                    out.push(',');
+                }
+                first = false;
+                let _ = write!(
+                    out,
+                    "{{\"path\":{},\"ty\":{},\"v\":{},\"span\":{}}}",
+                    js(&format!("static:{}", cx.path(did))),
+                    js(&cx.tys(ty)),
+                    val,
+                    cx.span(tcx.def_span(did))
+                );
+                continue;
+            }
             if !matches!(kind, DefKind::Const { .. } | DefKind::AssocConst { .. }) {
                 continue;
             }
